@@ -5,6 +5,7 @@ package main
 import (
 	"fmt"
 	"go/types"
+	"os"
 	"sort"
 	"strings"
 
@@ -60,6 +61,15 @@ func (fv *FuncVC) call(fr *Frame, b *ssa.BasicBlock, st *State, reach string, x 
 	// unknown function value: havoc result and the effects of every function with this signature
 	fv.havoced[fmt.Sprintf("dynamic call of %s at %s", cc.Value.Name(), pos)] = true
 	keys, all := fv.v.dynamicEffects(fv, cc.Signature())
+	if os.Getenv("GOCV_DEBUG") != "" {
+		var mk []string
+		for _, k := range keys {
+			if isModuleKey(k) {
+				mk = append(mk, k)
+			}
+		}
+		fmt.Fprintf(os.Stderr, "[debug] havoc dynamic call %s all=%v module keys=%v\n", cc.Value.Name(), all, mk)
+	}
 	fv.havocKeys(st, keys, all)
 	return fv.freshResult(st, reach, x.Type(), "dyncall")
 }
@@ -231,6 +241,15 @@ func (fv *FuncVC) callStatic(fr *Frame, st *State, reach string, callee *ssa.Fun
 	}
 	fv.havoced[key] = true
 	keys, all := fv.v.Effects(fv, callee)
+	if os.Getenv("GOCV_DEBUG") != "" {
+		var mk []string
+		for _, k := range keys {
+			if isModuleKey(k) {
+				mk = append(mk, k)
+			}
+		}
+		fmt.Fprintf(os.Stderr, "[debug] havoc call %s all=%v module keys=%v\n   allkeys=%v\n", key, all, mk, keys)
+	}
 	// pointer arguments handed to external code may be written through
 	if !isModulePkg(pkgOf(callee)) {
 		keys = append(keys, fv.pointeeKeys(args)...)
@@ -448,6 +467,9 @@ func (fv *FuncVC) applyContract(fr *Frame, st *State, reach string, callee *ssa.
 	for _, e := range con.Ensures {
 		fv.ctx.Assume(Implies(reach, fv.evalClause(env2, e)))
 	}
+	for _, e := range con.Records {
+		fv.ctx.Assume(Implies(reach, fv.evalClause(env2, e)))
+	}
 	return res
 }
 
@@ -480,8 +502,12 @@ func (fv *FuncVC) pureAppNamed(st *State, base string, reads []string, pkg *type
 		fv.ctx.Decl(name, sorts, c.Sort)
 		res.C[i] = App(name, as...)
 	}
-	for _, f := range fv.m.TypeFacts(res, "") {
-		fv.ctx.Assume(f)
+	// references returned by a pure function are treated as existing before the call (its results
+	// are memoised values as far as the caller can tell)
+	if fv.binderDepth == 0 {
+		for _, f := range fv.m.TypeFacts(res, st.cnt) {
+			fv.ctx.Assume(f)
+		}
 	}
 	return res
 }
@@ -679,6 +705,17 @@ func (fv *FuncVC) invoke(fr *Frame, st *State, reach string, x *ssa.Call, recv V
 	cc := x.Common()
 	rt := x.Type()
 	ifaceT := cc.Value.Type()
+	// statically known dynamic type (the interface value was built by MakeInterface on this path)
+	if dt, ok := fv.typeByID[recv.C[0]]; ok {
+		ms := fv.v.prog.MethodSets.MethodSet(dt)
+		if sel := ms.Lookup(cc.Method.Pkg(), cc.Method.Name()); sel != nil {
+			if fn := fv.v.prog.MethodValue(sel); fn != nil {
+				rv := fv.unbox(st, recv.C[1], dt)
+				rv.T = dt
+				return fv.callStatic(fr, st, reach, fn, append([]Val{rv}, args...), nil, rt, pos)
+			}
+		}
+	}
 	// interface method contract?
 	if n, ok := types.Unalias(ifaceT).(*types.Named); ok && n.Obj().Pkg() != nil {
 		if con := fv.v.ifaceCon[n.Obj().Pkg().Path()+"."+n.Obj().Name()+"."+cc.Method.Name()]; con != nil {
